@@ -69,10 +69,37 @@ def nothing_logs_before_log_init(ctx):
     ctx.ok("nothing-logs-before-Log::init", "never_before + call-graph reachability (who-may-call)", main.loc(inits[0]), "%d call edges of main can run before Log::init; their closures were searched for the logger's entry points" % n)
 
 
+def process_logger_is_destroyed_at_exit(ctx):
+    """'All accepted lines are flushed before logger shutdown returns' - and shutdown happens: the process-wide logger Log::get hands out
+    is an OBJECT with static storage duration (its destructor - stop flag, notify, join, after the flusher drained the queue - runs
+    when the process exits normally), not a heap object that is never deleted.  With a leaked logger the flusher thread simply dies
+    with the process and whatever was queued is lost without a drop notice."""
+    P = ctx.prog
+    g = ctx.use(ctx.fn1("Oomd::Log::get"))
+    rets = [r for r in returns(g) if "val" in g.nodes[r]]
+    ok, why = bool(rets), "no value return"
+    for r in rets:
+        vn = g.nodes[g.strip(g.nodes[r]["val"])]
+        if not (vn.get("k") == "ref" and vn.get("dk") == "static_local"):
+            ok, why = False, "it returns %s, which is not a static local object" % g.text(g.nodes[r]["val"])[:60]
+            continue
+        _, v = g.vardecl(vn["decl"]) if vn.get("decl") else (None, None)
+        ty = ((v or {}).get("type") or "").replace("const ", "").strip()
+        if ty not in ("Oomd::Log", "Log"):
+            ok, why = False, "the static local '%s' has type %s (a pointer / reference / wrapper is not destroyed with the object it refers to)" % (vn["name"], ty)
+    news = [i for i, n in enumerate(g.nodes) if n.get("k") == "new" or (n.get("k") == "call" and n.get("cname") in ("make_unique", "make_shared"))]
+    if ok and news:
+        ok, why = False, "it allocates the logger on the heap at line %d" % g.nodes[news[0]].get("line", 0)
+    ctx.check(ok, "process-logger-is-destroyed-at-exit", "storage_class + declared type", g.loc(),
+              "Log::get returns a static local of class type Log", "Log::get does not hand out a logger with static storage duration: %s.  ~Log never runs for the "
+              "logger Log::init created, so on a normal exit the lines still queued for the flusher thread are lost (accepted, not counted as dropped, never written)" % why)
+
+
 def run(ctx):
     # locals / parameters the rules below refer to by name (a rename makes the analysis 'broken', never a violation)
     P, cg = ctx.prog, ctx.cg
     nothing_logs_before_log_init(ctx)
+    process_logger_is_destroyed_at_exit(ctx)
     LA = LockAnalysis(P, cg)
     dbg = ctx.fn1("Oomd::Log::debugLog")
     io = ctx.fn1("Oomd::Log::ioThread")
